@@ -262,7 +262,7 @@ macro_rules! angle_systems {
 
             /// chains of normalising operations: range closure from non-initial states
             pub fn chains<T: Fl>(rep: &mut Report) {
-                let depth = rep.pick(3, 4);
+                let depth = rep.pick(3, 5);
                 let inits: Vec<St<T>> = values::<T>(false).into_iter().step_by(3).filter(|x| x.f().abs() < 1e6).map(|x| St(vec![x])).collect();
                 const ACT: [&str; 6] = ["normalize", "normalize_signed", "opposite", "neg", "+turn/4", "bisect(.,turn/3)"];
                 rep.bfs(
